@@ -80,6 +80,12 @@ const (
 	vC05Ws3     // U+FEFF or U+2028 (symbolic)
 	vC05NEL     // U+0085: not white space in ECMAScript (but unicode.IsSpace in Go)
 	vC05WsKinds
+	// concrete members (H05.4.strnum.fixed is a concrete enumeration)
+	vC05WsSP
+	vC05WsTAB
+	vC05WsLF
+	vC05WsFEFF
+	vC05WsLS
 )
 
 type vC05Text struct {
@@ -110,6 +116,20 @@ func (t *vC05Text) addWs(name string, kind int) {
 		}
 		t.units = append(t.units, u)
 		t.utf8 = append(t.utf8, b0, b1, b2)
+		t.ascii = false
+	case vC05WsSP:
+		t.addASCII(' ')
+	case vC05WsTAB:
+		t.addASCII('\t')
+	case vC05WsLF:
+		t.addASCII('\n')
+	case vC05WsFEFF:
+		t.units = append(t.units, 0xFEFF)
+		t.utf8 = append(t.utf8, 0xEF, 0xBB, 0xBF)
+		t.ascii = false
+	case vC05WsLS:
+		t.units = append(t.units, 0x2028)
+		t.utf8 = append(t.utf8, 0xE2, 0x80, 0xA8)
 		t.ascii = false
 	case vC05NEL:
 		t.units = append(t.units, 0x85)
@@ -151,6 +171,11 @@ var vC05RepNames = [3]string{"eager", "imported", "imported-scanned"}
 func vC05Check(t *vC05Text, wantBits uint64, wantTrim string, knownNum bool, knownID string) {
 	vals := t.values()
 	var num [3]uint64
+	// (a definitely failing assertion ends the path: independent checks first)
+	for k := range vals {
+		s := t.values()[k]
+		vAssert("toTrimmedUTF8==text without leading/trailing StrWhiteSpaceChar", s.toTrimmedUTF8() == wantTrim)
+	}
 	for k, s := range vals {
 		n := s.ToNumber()
 		vAssert("ToNumber:canonical-number", refCanonicalNumber(n))
@@ -179,17 +204,19 @@ func vC05Check(t *vC05Text, wantBits uint64, wantTrim string, knownNum bool, kno
 			vAssertK("ToInteger==clamp(ToIntegerOrInfinity(ToNumber)):utf16-backed", i == want, true, "F-C05-unicode-string-ToFloat-ToInteger-constant")
 		}
 	}
-	for k := range vals {
-		s := t.values()[k]
-		vAssert("toTrimmedUTF8==text without leading/trailing StrWhiteSpaceChar", s.toTrimmedUTF8() == wantTrim)
-	}
+}
+
+// (prefix, suffix) shapes of H05.4.strnum.digits: symbolic members of each white-space class
+var vC05DigitShapes = [][2]int{
+	{vC05WsNone, vC05WsNone}, {vC05WsAscii, vC05WsAscii}, {vC05WsNBSP, vC05WsNone}, {vC05WsNone, vC05Ws3},
+	{vC05Ws3, vC05WsAscii}, {vC05WsAscii, vC05WsNBSP},
 }
 
 // H05.4.digits: ws? sign? digit{1,3} ws?
 func H_C05_strnumDigits() {
 	t := &vC05Text{ascii: true}
-	pre := vChoice("prefix", vC05NEL) // no NEL here (H05.4.fixed)
-	suf := vChoice("suffix", vC05NEL)
+	sh := vC05DigitShapes[vChoice("shape", len(vC05DigitShapes))] // no NEL here (H05.4.strnum.fixed)
+	pre, suf := sh[0], sh[1]
 	signed := vChoice("signed", 2) == 1
 	nd := 1 + vChoice("digits", vBound("D"))
 	t.addWs("pre", pre)
@@ -253,15 +280,24 @@ var vC05FixedSpellings = []vC05Fixed{
 
 // (prefix, suffix) shapes of H05.4.fixed
 var vC05FixedShapes = [][2]int{
-	{vC05WsNone, vC05WsNone}, {vC05WsAscii, vC05WsNone}, {vC05WsNone, vC05WsNBSP}, {vC05Ws3, vC05WsAscii},
+	{vC05WsNone, vC05WsNone}, {vC05WsTAB, vC05WsNone}, {vC05WsLF, vC05WsSP}, {vC05WsNone, vC05WsNBSP},
+	{vC05WsFEFF, vC05WsTAB}, {vC05WsSP, vC05WsLS},
 	{vC05NEL, vC05WsNone}, {vC05WsNone, vC05NEL}, {vC05WsNBSP, vC05NEL},
 }
 
 // H05.4.fixed: ws? spelling ws?, including U+0085 (must not be trimmed => NaN)
 func H_C05_strnumFixed() {
 	t := &vC05Text{ascii: true}
-	sh := vC05FixedShapes[vChoice("shape", len(vC05FixedShapes))]
-	fx := vC05FixedSpellings[vChoice("spelling", len(vC05FixedSpellings))]
+	// json bounds select a window of the two tables (SHN / SPN = 0: to the end)
+	shN, spN := vBound("SHN"), vBound("SPN")
+	if shN == 0 {
+		shN = len(vC05FixedShapes) - vBound("SHLO")
+	}
+	if spN == 0 {
+		spN = len(vC05FixedSpellings) - vBound("SPLO")
+	}
+	sh := vC05FixedShapes[vBound("SHLO")+vChoice("shape", shN)]
+	fx := vC05FixedSpellings[vBound("SPLO")+vChoice("spelling", spN)]
 	t.addWs("pre", sh[0])
 	trimStart := len(t.utf8)
 	if sh[0] == vC05NEL {
